@@ -26,7 +26,7 @@ DEFAULT_SPEC = {
     "n_bams": 1,           # files per experiment
     "n_exp": 1,            # experiments
     "exp_mode": "same",    # "same": every experiment gets all reads; "split": disjoint random subsets
-    "unmapped": 2,         # unmapped records per experiment
+    "unmapped": 2,         # unmapped records per experiment (dealt over its files)
     "secondary_seq": 1,    # secondary records carry SEQ
     "supplementary": 1,    # number of supplementary records
     "lowmapq": 1,          # number of intergenic MAPQ-0 reads
@@ -474,7 +474,7 @@ def build(spec, outdir, gtf_gz=False, write_bams=True):
                         tags.append(("RG", r["group"]))
                     a.set_tags(tags)
                     out.write(a)
-                for u in range(s["unmapped"]):
+                for u in range(fi, s["unmapped"], len(exp["files"])):
                     a = pysam.AlignedSegment(out.header)
                     a.query_name = "un%d_%d_%d" % (e, fi, u)
                     a.flag = 4
